@@ -193,6 +193,69 @@ func init() {
 		})
 	}
 
+	facet.Register(facet.F[OpIn]{
+		Prop: "C04", Name: "ops/mark-derived", Quick: 40000, Thorough: 400000, Shards: 4,
+		Rule: "an operation call on marked operands (as ops/*); its result, and members extracted from the operands by Index / GetAttr / iteration, are given fresh marks with Mark / WithMarks / WithSameMarks; afterwards the operands, and a repetition of the call, must carry exactly the marks they were constructed with (no mark that no input carried); non-trivial = a nested member is marked",
+		Gen:  genOps(ops.AllOps),
+		Check: func(c *facet.Ctx, in OpIn) error {
+			c.Label("op=" + in.C.Op)
+			args, err := buildAll(in.C.Args)
+			if err != nil {
+				return facet.Failf("harness-build", "%v", err)
+			}
+			want := make([]map[string]bool, len(args))
+			all := map[string]bool{}
+			for i, a := range in.C.Args {
+				want[i] = a.DeepMarks()
+				for m := range want[i] {
+					all[m] = true
+				}
+				if len(a.DeepMarks()) > len(a.Marks) || (len(a.Marks) == 0 && a.HasMarks()) {
+					c.NonTrivial()
+				}
+			}
+			r := ops.Apply(in.C.Op, args, in.C.Attr)
+			fresh := func(v cty.Value) {
+				defer func() { recover() }()
+				_ = v.Mark(spec.Mark("fresh1"))
+				_ = v.WithMarks(cty.NewValueMarks(spec.Mark("fresh2")))
+				_ = v.WithSameMarks(cty.StringVal("x").Mark(spec.Mark("fresh3")))
+			}
+			if !r.Panicked {
+				fresh(r.Val)
+			}
+			for _, a := range args {
+				fresh(a)
+				func() {
+					defer func() { recover() }()
+					u, _ := a.Unmark()
+					if u.IsKnown() && !u.IsNull() && u.CanIterateElements() {
+						for it := u.ElementIterator(); it.Next(); {
+							k, e := it.Element()
+							fresh(e)
+							fresh(k)
+						}
+					}
+				}()
+			}
+			for i, a := range args {
+				got := deepMarks(a)
+				if keys(got) != keys(want[i]) {
+					return facet.Failf("mark-invented", "operand %d was built with marks %s but now carries %s after marking values derived from it", i, keys(want[i]), keys(got)).With("op", in.C.Op)
+				}
+			}
+			r2 := ops.Apply(in.C.Op, args, in.C.Attr)
+			if !r2.Panicked {
+				for m := range deepMarks(r2.Val) {
+					if !all[m] {
+						return facet.Failf("mark-invented", "%s%s = %#v carries mark %q that no operand was built with", in.C.Op, fmtArgs(args), r2.Val, m).With("op", in.C.Op)
+					}
+				}
+			}
+			return nil
+		},
+	})
+
 	facet.Register(facet.F[SetIn]{
 		Prop: "C04", Name: "setval/hoist", Quick: 40000, Thorough: 400000, Shards: 4,
 		Rule: "1..4 members of one element type (depth <= 2, nulls and unknowns allowed) with marks placed on members and inside them; SetVal must carry exactly the union of all member marks at the top, hold no marks inside, and equal the set built from the stripped members; non-trivial = a mark inside a member or >= 2 distinct marks",
